@@ -36,6 +36,11 @@ def records(ctx):
         keep = sorted(rng.sample(range(1, P + 1), rng.randint(1, P - 1)))
         rng.shuffle(keep)
         add('filter', {'s': enc(fs), 'keep': keep}, observe(lambda: fs.filter_pops(list(keep))), 'Spectrum.filter_pops')
+        if k % 4 == 1:      # the mask_corners=False option on fully unmasked input: the corners of the result are exactly those of the re-indexing
+            add('marginalize', {'s': enc(fs), 'over': [a + 1 for a in over_arg], 'mc': False},
+                observe(lambda: fs.marginalize(tuple(over_arg), mask_corners=False)), 'Spectrum.marginalize[mask_corners=False]')
+            add('filter', {'s': enc(fs), 'keep': keep, 'mc': False},
+                observe(lambda: fs.filter_pops(list(keep), mask_corners=False)), 'Spectrum.filter_pops[mask_corners=False]')
         perm = list(range(1, P + 1))
         rng.shuffle(perm)
         add('reorder', {'s': enc(fs), 'perm': perm}, observe(lambda: fs.reorder_pops(list(perm))), 'Spectrum.reorder_pops')
